@@ -186,6 +186,11 @@ func getGuardianSetsFromChain(ctx context.Context, contract *abi.Abi, fromIndex,
 		if err != nil {
 			return nil, err
 		}
+		// The contract answers a query for an index it has not created yet with an empty set (a set it has
+		// created always has keys). Such an answer must not be kept as the set with that index.
+		if len(res.Keys) == 0 {
+			return nil, fmt.Errorf("guardian set %d does not exist on chain", index)
+		}
 		guardianSets = append(guardianSets, &common.GuardianSet{
 			Keys:  res.Keys,
 			Index: index,
